@@ -7,6 +7,8 @@ import (
 	"os"
 
 	_ "verif/harness/internal/c05"
+	_ "verif/harness/internal/c14"
+	_ "verif/harness/internal/c17"
 	"verif/harness/internal/vf"
 )
 
